@@ -154,6 +154,11 @@ def check_content_stream(ctx, fn, root, via_param, record_pred, sig_mode, what):
     inl = [e for e in em if e.loop is not None]
     # --- before the loop
     i = 0
+    if sig_mode == "always":
+        if pre and pre[0].kind == "rlp" and is_field(pre[0].value, "signature") and pre[0].cls == ("BYTES", None) and pre[0].cond is None:
+            i = 1
+        else:
+            problems.append("first emission is not, unconditionally, the signature as a byte string (found %s)" % (pre[0] if pre else None))
     if sig_mode == "flag":
         if pre and pre[0].kind == "rlp" and is_field(pre[0].value, "signature") and pre[0].cls == ("BYTES", None):
             if pre[0].cond and pre[0].cond[0] == "flag" and pre[0].cond[2] is True:
@@ -244,3 +249,40 @@ def check_framed(ctx, fn, stream_local, out_root, out_via_param):
     if not an.cfg.dominates(h.bb, s.bb):
         problems.append("stream written before its header")
     return problems
+
+
+# ---------------------------------------------------------------- "the encoding of self"
+
+
+def length_overridden(ctx):
+    """does the crate override Encodable::length for the record type?"""
+    return any(x.name == "length" and (x.impl_trait or "").endswith("alloy_rlp::Encodable") and x.impl_self and x.impl_self.get("adt") == "Enr" for x in ctx.facts.fns)
+
+
+def is_encoding_of_self(ctx, f, an, e, buf_local=None):
+    """e (or the local buffer buf_local) holds exactly the bytes
+    <Enr as Encodable>::encode(self) writes:
+      * alloy_rlp::encode(self)                       (library: fresh Vec filled by value.encode)
+      * a fresh Vec/BytesMut that received exactly one `self.encode(&mut buf)`"""
+    import shapes
+    es = unmut(e) if e is not None else None
+    if es is not None and es.k == "call" and es.a[0].fn == "alloy_rlp::encode" and len(es.a[1]) == 1:
+        a = strip(es.a[1][0])
+        return a.k == "param" and a.a[0] == 1 and any("Enr<" in (t.get("s") or "") for t in es.a[0].targs)
+    if buf_local is None and e is not None:
+        ee = strip(e)
+        if ee.k == "mutated":
+            buf_local = ee.a[1]
+    if buf_local is None:
+        return False
+    d = shapes.def_expr(an, buf_local)
+    muts = shapes.mutations(an, buf_local)
+    d = unmut(d) if d is not None else None
+    fresh = d is not None and d.k == "call" and d.a[0].name in ("new", "with_capacity") and not d.a[0].local
+    if not (fresh and len(muts) == 1 and muts[0]["kind"] == "mutcall"):
+        return False
+    t = muts[0]["term"]
+    c = t.callee
+    sa = strip(an.operand_expr(t.args[0], muts[0]["bb"], muts[0]["idx"]))
+    return bool(c and c.name == "encode" and (c.trait or "").endswith("alloy_rlp::Encodable") and c.self_ty and c.self_ty.get("adt") == "Enr" and sa.k == "param" and sa.a[0] == 1)
+
